@@ -27,6 +27,7 @@ import collections
 import itertools
 
 from bounded import _c04_core as K
+from bounded import _c04_fields as F
 from bounded import _c04_gen as G
 from bounded._c04_samples import ALPHABET, NASTY_TOKENS, SAMPLES
 
@@ -224,6 +225,77 @@ def _wire_options(C):
         if ot == 8:
             w = bytes([0, R.rng.choice([0, 1, 2, 3])]) + w[2:]
         C.case("edns.option_from_wire", {"otype": ot, "wire": w, "current": 0, "olen": len(w)})
+
+
+# ============================================================================ wire: field extremes
+_X4 = {"u8": (0, 1, 254, 255), "u16": (0, 1, 65534, 65535), "u32": (0, 1, 0xFFFFFFFE, 0xFFFFFFFF),
+       "u48": (0, 1, (1 << 48) - 2, (1 << 48) - 1)}
+_OPT_TTLS = [0x01000000, 0x0F000000, 0xFF000000, 0x00010000, 0x00FF0000, 0x00008000, 0x00007FFF, 0x0000FFFF, 0xFF00FFFF, 0xFFFF8000]
+
+
+def _wire_field_extremes(C):
+    """C04.rerender on systematically built records: for every implemented type a specimen
+    RDATA written from the RFC layout (bounded/_c04_fields.py) in which each fixed-width
+    integer field in turn takes its extreme and boundary values, parsed by rdata.from_wire and,
+    wrapped into a message, by message.from_wire (strict, continue_on_error, origin,
+    keyring=False for TSIG); every value returned is rendered with to_text, to_wire,
+    to_digestable, Message.to_text, Message.to_wire and record by record."""
+    R = C.R
+    impl = set(G.implemented_types())
+    missing = sorted(impl - F.covered_types())
+    if missing:
+        R.note(f"field extremes: no layout for implemented types {missing}")
+    n_cases = n_value = n_spec_bad = 0
+    per_type_value = collections.Counter()
+    sampled = False
+    for c in F.cases(R.quick):
+        if C.stop(0.55):
+            R.note(f"wire_field_extremes: cut by budget at {c['layout']} after {n_cases} wires")
+            break
+        cls, t, w = c["rdclass"], c["rdtype"], c["wire"]
+        what = c["layout"] if c["field"] is None else f"{c['layout']}.{c['field']}={c['value']}"
+        base = {"rdclass": cls, "rdtype": t, "wire": w, "current": 0, "rdlen": len(w), "deep": True, "field": what}
+        n_cases += 1
+        info = C.case("rdata.from_wire", base, sample=(not sampled and c["kind"] == "u16" and c["value"] == 65535))
+        sampled = sampled or (c["kind"] == "u16" and c["value"] == 65535)
+        if info["outcome"] == "value":
+            n_value += 1
+            per_type_value[c["layout"]] += 1
+        elif c["kind"] == "specimen":
+            # the unmodified specimen is valid by the RFC; a rejection here means the sweep of
+            # this layout does not reach the rendering code (harness problem, not a finding)
+            n_spec_bad += 1
+            R.note(f"field extremes: specimen {c['layout']} not accepted by rdata.from_wire: {info.get('exc')}")
+        if not c["edge"]:
+            continue
+        C.case("rdata.from_wire", dict(base, origin="example."))
+        x4 = c["kind"] in ("specimen", "all", "fix") or c["value"] in _X4.get(c["kind"], ())
+        opts = F.message_opts(t)
+        for j, o in enumerate(opts):
+            if j >= 2 and not x4 and R.quick:
+                break  # quick: the origin / one-rr / keyring variants only at the four extremes
+            mw = F.wrap_message(cls, t, w)
+            C.case("message.from_wire", {"wire": mw, "opts": o, "deep": True, "field": what},
+                   sample=(c["kind"] == "specimen" and t == 250 and j == 0))
+            if x4 and not o.get("continue_on_error"):
+                C.case("message.coe", {"wire": mw, "opts": o})
+        if c["kind"] == "specimen":
+            # the fixed-width fields of the record header: TTL (OPT: extended rcode, version,
+            # flags), OPT class (payload size), header rcode
+            ttls = sorted(set(F.edge("u32")) | (set(_OPT_TTLS) if t == 41 else set()))
+            for ttl in ttls:
+                for flags in ((0x8180, 0x818F) if t == 41 else (0x8180,)):
+                    mw = F.wrap_message(cls, t, w, ttl=ttl, flags=flags)
+                    for o in opts[:2]:
+                        C.case("message.from_wire", {"wire": mw, "opts": o, "deep": True, "field": f"{what}.rr_ttl={ttl}"})
+            if t == 41:
+                for payload in F.edge("u16"):
+                    mw = F.wrap_message(cls, t, w, payload=payload)
+                    for o in opts[:2]:
+                        C.case("message.from_wire", {"wire": mw, "opts": o, "deep": True, "field": f"{what}.payload={payload}"})
+    silent = sorted(l for _, _, l, _ in F.LAYOUTS if per_type_value[l] <= 1)
+    R.note(f"wire_field_extremes: {n_cases} field-extreme RDATA wires, {n_value} accepted by rdata.from_wire and rendered; "
+           f"{n_spec_bad} specimens rejected; layouts with no accepted variant besides the specimen: {silent}")
 
 
 # ============================================================================ wire: messages
@@ -585,7 +657,7 @@ def run(R):
     C = _Ctx(R)
     # order: cheap exhaustive scopes of every clause first, long seeded tails are bounded by
     # per-section budget fractions so that every clause is evaluated in every run
-    for fn in (_wire_names, _wire_rdata, _wire_options, _wire_messages, _text_names, _text_ttl,
+    for fn in (_wire_names, _wire_rdata, _wire_options, _wire_field_extremes, _wire_messages, _text_names, _text_ttl,
                _text_rdata, _text_zones, _text_messages, _text_tokenizer):
         t0 = R.elapsed()
         try:
